@@ -199,6 +199,7 @@ fn post_init<T: Transport>(d: &mut AnyDriver<T>, accepted: u64, v: &mut Vec<(Str
         AnyDriver::Input(_) => {}
         AnyDriver::NetRaw(n) => {
             let _ = n.send(&[1, 2, 3, 4]);
+            let _ = n.send(&[]);
             let mut b = [0u8; 64];
             let hl = n.fill_buffer_header(&mut b);
             let want = if accepted & F_VERSION_1 != 0 { 12 } else { 10 };
@@ -210,6 +211,7 @@ fn post_init<T: Transport>(d: &mut AnyDriver<T>, accepted: u64, v: &mut Vec<(Str
             let mut tx = n.new_tx_buffer(4);
             tx.packet_mut().copy_from_slice(&[1, 2, 3, 4]);
             let _ = n.send(tx);
+            let _ = n.send(n.new_tx_buffer(0));
         }
         AnyDriver::Rng(r) => {
             let mut b = [0u8; 8];
@@ -261,13 +263,15 @@ fn device_specific(kind: Kind, accepted: u64, served: &[crate::cosim::Served], l
         }
         Kind::NetRaw | Kind::NetBuf => {
             let want = if accepted & F_VERSION_1 != 0 { 12 } else { 10 };
-            for s in served.iter().filter(|s| s.q == 1) {
-                if s.request.len() != want + 4 || s.request[..want].iter().any(|b| *b != 0) || s.request[want..] != [1, 2, 3, 4] {
-                    push(v, "net-header-size", format!("transmitted chain is {:?}; expected a zeroed {}-byte header followed by the 4 payload bytes (VERSION_1 negotiated = {})", s.request, want, want == 12));
+            let payloads: [&[u8]; 2] = [&[1, 2, 3, 4], &[]];
+            let txs: Vec<&crate::cosim::Served> = served.iter().filter(|s| s.q == 1).collect();
+            for (s, p) in txs.iter().zip(payloads.iter()) {
+                if s.request.len() != want + p.len() || s.request[..want.min(s.request.len())].iter().any(|b| *b != 0) || s.request[want.min(s.request.len())..] != **p {
+                    push(v, "net-header-size", format!("transmitted chain is {:?}; expected a zeroed {}-byte header followed by the {} payload bytes (VERSION_1 negotiated = {})", s.request, want, p.len(), want == 12));
                 }
             }
-            if !served.iter().any(|s| s.q == 1) {
-                push(v, "net-no-transmit", "no transmit chain seen".into());
+            if txs.len() != 2 {
+                push(v, "net-no-transmit", format!("{} transmit chains seen for 2 sends", txs.len()));
             }
         }
         _ => {}
